@@ -120,6 +120,30 @@ struct RefOp {
                 mag[g.index(i, j)] = m;
             }
     }
+    // rounding magnitude per row for an implementation that evaluates the stencil in double:
+    //   sum_j |a_ij||x_j| + |a_ii| * max_{j in stencil} |x_j|   (the second term covers the absolute error of
+    //   the mixed-derivative weights, which are differences of products of Jacobian entries)
+    void applyMag(const Vector<double>& x, std::vector<LD>& y, std::vector<LD>& mag) const
+    {
+        y.assign((size_t)nr * nt, 0);
+        mag.assign((size_t)nr * nt, 0);
+        std::vector<Entry> e;
+        for (int i = 0; i < nr; i++)
+            for (int j = 0; j < nt; j++) {
+                row(i, j, e);
+                LD s = 0, m = 0, dia = 0, um = 0;
+                for (auto& q : e) {
+                    LD xv = x[g.index(q.i, q.j)];
+                    s += q.v * xv;
+                    m += fabsl(q.v) * fabsl(xv);
+                    if (q.i == i && q.j == W(j))
+                        dia = fabsl(q.v);
+                    um = std::max(um, fabsl(xv));
+                }
+                y[g.index(i, j)]   = s;
+                mag[g.index(i, j)] = m + dia * um;
+            }
+    }
     // dense matrix in grid index order (entries addressing the same node are added)
     DMat dense() const
     {
